@@ -252,7 +252,10 @@ impl Walrus {
             } else {
                 // No persisted tail; init at current active block start
                 persisted_tail = Some((active_block.id, 0));
-                if checkpoint {
+                // Record the move onto this tail block only when the reader is not already on it:
+                // otherwise offset 0 would overwrite the progress persisted for this block (and reset the
+                // AtLeastOnce counter on every call, so the real position would never be persisted).
+                if checkpoint && tail_snapshot.0 != active_block.id {
                     if self.should_persist(&mut info, true) {
                         if let Ok(mut idx_guard) = self.read_offset_index.write() {
                             let _ =
